@@ -132,8 +132,10 @@ Section Mesh.
     let cz := box_central hz mh tol in
     box_core (V hx hy hz) (V cx cy cz) (cx =? zero) (cy =? zero) (cz =? zero) mh.
 
-  (** ** make_tetrahedral_cylinder.  The rim points [radius * cos/sin(angle_step * i)] are an
-      input of the model ([rim], one (x, y) per circle vertex; n = length rim): the
+  (** ** make_tetrahedral_cylinder.  The values [cos/sin(angle_step * i)] are an input of
+      the model ([trig], one (cos, sin) per circle vertex; n = length trig; the harness
+      computes them with the same numpy calls as the code); [cyl_mesh_rim] is everything
+      after the rim points [x = radius * cos, y = radius * sin] have been computed: the
       theorems hold for arbitrary rim points in counter-clockwise order. *)
   Inductive cyl_class := Long | Medium | Short.
 
@@ -177,7 +179,7 @@ Section Mesh.
   Definition cyl_elements (table : list celem) (n : nat) : list tet :=
     flat_map (fun '(i, j) => flat_map (celem_tets (Z.of_nat n) i j) table) (sector_pairs n).
 
-  Definition cyl_mesh (radius length : F) (rim : list (F * F)) : mesh :=
+  Definition cyl_mesh_rim (radius length : F) (rim : list (F * F)) : mesh :=
     let top_z := half * length in
     let n := List.length rim in
     let outer := cyl_outer_verts top_z rim in
@@ -195,6 +197,12 @@ Section Mesh.
         (outer ++ [V zero zero zero] ++ map (fun '(x, y) => V (x * scale) (y * scale) zero) rim,
          cyl_elements cyl_short n, pot0 ++ [half_length] ++ map (fun _ => half_length) rim)
     end.
+
+  (** x = radius * np.cos(angle_step * i); y = radius * np.sin(angle_step * i) *)
+  Definition cyl_rim_xy (radius : F) (trig : list (F * F)) : list (F * F) :=
+    map (fun '(c, s) => (radius * c, radius * s)) trig.
+  Definition cyl_mesh (radius length : F) (trig : list (F * F)) : mesh :=
+    cyl_mesh_rim radius length (cyl_rim_xy radius trig).
 End Mesh.
 
 (** ** icosphere: subdivision combinatorics over vertex ids (no geometry) *)
